@@ -651,6 +651,11 @@ func (d *Driver) Apply(o *Op) (resp Resp) {
 		_, err := S.DropRowRange(ctx, roundTrip(req, &btapb.DropRowRangeRequest{}))
 		c, msg := codeOf(err)
 		return Resp{Code: c, Msg: msg}
+	case "Shutdown":
+		// the emulator is stopped (the public Server.Close) while other requests may be in flight; only meaningful
+		// on an engine whose rows survive Close (btree): what is judged is that nothing deadlocks
+		S.VerifCloseAsServer()
+		return Resp{Code: "OK"}
 	case "GenToken":
 		r, err := S.GenerateConsistencyToken(ctx, roundTrip(&btapb.GenerateConsistencyTokenRequest{Name: o.Table}, &btapb.GenerateConsistencyTokenRequest{}))
 		c, msg := codeOf(err)
